@@ -214,6 +214,17 @@ BLOCKS = {
     'penalty': ('switch', 'N', 'A\\penalty 100 B%(n)s.\n'),
     'assign_probe': ('switch', 'R', '\\parindent=9pt Q%(n)s:\\ifdim\\parindent=9pt Y\\else N\\fi.\n'),
     'listings_pkg': ('resources', 'W', 'Uses listings resources %(n)s.\n'),
+    # programs: the document loads a user package (a Python module found through --packages-dirs) that uses plasTeX's API
+    'prog_coltype_right': ('program', 'W', '\\begin{tabular}{lY}pa%(n)s&pb\\end{tabular}\n'),
+    'prog_coltype_center': ('program', 'R', '\\begin{tabular}{lY}qa%(n)s&qb\\end{tabular}\n'),
+    'prog_charsubs': ('program', 'W', 'Wait... w%(n)s done.\n\n'),
+    'dots_probe': ('program', 'R', 'Hold... h%(n)s on -- and ``quoted\'\' text.\n\n'),
+    'prog_macro': ('program', 'W', '\\qpmac{m%(n)s}\n'),
+    'prog_macro_probe': ('program', 'R', '\\providecommand{\\qpmac}[1]{[#1]}\\qpmac{z%(n)s}\n'),
+    'prog_counter': ('program', 'W', '\\stepcounter{qpcount}C\\arabic{qpcount}.%(n)s\n'),
+    'prog_counter_probe': ('program', 'R', '\\newcounter{qpcount}\\stepcounter{qpcount}D\\arabic{qpcount}.%(n)s\n'),
+    'prog_newif': ('program', 'W', '\\ifqpflag T\\else F\\fi%(n)s.\n'),
+    'prog_userdata': ('program', 'W', 'Userdata u%(n)s.\n'),
     # conditionals: every argument form of the argument scanner's token types (Tok, XTok, Number, Dimen) on every exit path
     'ifx_macros_multi': ('switch', 'W', '\\def\\fxa{xy}\\def\\fxb{xy}\\ifx\\fxa\\fxb S\\else D\\fi%(n)s.\n'),
     'ifx_macros_single': ('switch', 'W', '\\def\\fxa{x}\\def\\fxb{y}\\ifx\\fxa\\fxb S\\else D\\fi%(n)s.\n'),
@@ -229,7 +240,9 @@ BLOCKS = {
     'newcount_assign': ('switch', 'R', '\\newcount\\fxtotal \\fxtotal=42 T\\the\\fxtotal. \\parskip=2pt plus 1pt Q%(n)s.\n'),
     'dimen_args_unitless': ('switch', 'W', 'A\\hspace{2}B\\vspace{1}C\\parbox{3}{box%(n)s}D\\rule{1}{2pt}E.\n'),
 }
-NEEDS = {'ifthenelse_forms': ['ifthen'], 'xcolor_define': ['xcolor'], 'xcolor_redefine': ['xcolor'], 'xcolor_provide': ['xcolor'], 'xcolor_use': ['xcolor'],
+NEEDS = {'prog_coltype_right': ['qpa'], 'prog_coltype_center': ['qpb'], 'prog_charsubs': ['qpc'], 'prog_macro': ['qpd'],
+         'prog_counter': ['qpe'], 'prog_newif': ['qpf'], 'prog_userdata': ['qpg'],
+         'ifthenelse_forms': ['ifthen'], 'xcolor_define': ['xcolor'], 'xcolor_redefine': ['xcolor'], 'xcolor_provide': ['xcolor'], 'xcolor_use': ['xcolor'],
          'amsthm_style': ['amsthm'], 'amsthm_plain': ['amsthm'], 'amsopn_declare': ['amsmath'], 'amsopn_provide': ['amsmath'],
          'hypersetup': ['hyperref'], 'href_plain': ['hyperref'], 'natbib_style': ['natbib'], 'natbib_cite': ['natbib'],
          'index_entries': ['makeidx'], 'index_print': ['makeidx'], 'lstset': ['listings'], 'lstlisting': ['listings'],
@@ -238,6 +251,18 @@ NEEDS = {'ifthenelse_forms': ['ifthen'], 'xcolor_define': ['xcolor'], 'xcolor_re
          'env_subequations': ['amsmath'], 'env_alignat': ['amsmath'], 'ifthen_open': ['ifthen'], 'listings_pkg': ['listings'], 'ifthen_math': ['ifthen'], 'ifthen_plain': ['ifthen'], 'color': ['color'], 'href': ['hyperref'],
          'coltype_def': ['array'], 'coltype_use': ['array']}
 # optional command-line settings of a job (list/dict valued options are the ones a shared default object would leak)
+# user packages (written to ./pk/<name>.py of the job directory, found through --packages-dirs pk)
+LOCAL_PACKAGES = {
+    'qpa': "from plasTeX.Base.LaTeX.Arrays import ColumnType\n\ndef ProcessOptions(options, document):\n    ColumnType.new('Y', {'text-align': 'right'})\n",
+    'qpb': "from plasTeX.Base.LaTeX.Arrays import ColumnType\n\ndef ProcessOptions(options, document):\n    ColumnType.new('Y', {'text-align': 'center'})\n",
+    'qpc': "def ProcessOptions(options, document):\n    document.charsubs.append(('...', chr(0x2026)))\n",
+    'qpd': "from plasTeX import Command\n\nclass qpmac(Command):\n    args = 'self'\n",
+    'qpe': "def ProcessOptions(options, document):\n    document.context.newcounter('qpcount', resetby='section')\n",
+    'qpf': "def ProcessOptions(options, document):\n    document.context.newif('ifqpflag', True)\n",
+    'qpg': "def ProcessOptions(options, document):\n    document.userdata['qp'] = document.userdata.get('qp', 0) + 1\n    document.context.newcommand('qpseen', 0, 'seen%d' % document.userdata['qp'])\n",
+}
+COLTYPE_PROGRAMS = ('prog_coltype_right', 'prog_coltype_center')
+
 EXTRA_ARGV = {
     'counter': ['--counter', 'section', '5'],
     'title': ['--title', 'Configured Title'],
@@ -389,6 +414,13 @@ def generate(seed, tier):
         ops[-1]['cut'] = None if ops[-1].get('cut') else ops[-1].get('cut')
     sw = {'scrub': r.random() < 0.5, 'base': r.choice(['minimal', 'minimal', 'full']),
           'exec_ref': r.random() < 0.15, 'hashseed': r.randrange(1, 1 << 30)}
+    if any(b in COLTYPE_PROGRAMS for o in ops for b in o['blocks']):
+        # the column-type registry is an OPEN finding that cannot be scrubbed (a dict mutated in place): keep the other
+        # open findings out of such a history, so that a V1 difference there is attributable to column types alone
+        sw['scrub'] = True
+        for o in ops:
+            if o['cls'] == 'beamer':
+                o['cls'] = 'article'
     return {'property': PID, 'seed': seed, 'swarm': sw, 'ops': ops}
 
 
@@ -532,6 +564,10 @@ def history_job(args, fs):
     os.makedirs('sub', exist_ok=True)
     with open(os.path.join('sub', 'inc2.tex'), 'w') as f:
         f.write('nested include \\input{inc}\n')
+    os.makedirs('pk', exist_ok=True)
+    for pkname, pksrc in sorted(LOCAL_PACKAGES.items()):
+        with open(os.path.join('pk', pkname + '.py'), 'w') as f:
+            f.write(pksrc)
     for j, job in enumerate(args['jobs']):
         SimClock.now = job['clock']
         os.chdir(root)
@@ -543,6 +579,8 @@ def history_job(args, fs):
         # file name first: list-valued options (nargs='+') would otherwise swallow it
         argv = [name + '.tex', '--renderer', job['renderer'], '--imager', 'none', '--vector-imager', 'none',
                 '--split-level', str(job['split']), '--theme', job['theme']]
+        if job.get('local'):
+            argv += ['--packages-dirs', 'pk']
         for x in job.get('extra', []):
             if x in EXTRA_ARGV and not (job['renderer'] != 'HTML5' and x in ('nomathjax', 'localtoc', 'extracss')):
                 argv += EXTRA_ARGV[x]
@@ -750,7 +788,8 @@ def _materialise(record):
         clock += op.get('dt', 1)
         jobs.append({'name': 'j%d' % j, 'src': job_source(op), 'raw': bool(op.get('raw')), 'renderer': op['renderer'], 'split': op['split'],
                      'theme': op['theme'], 'clock': clock, 'blocks': op['blocks'], 'cut': op.get('cut'),
-                     'extra': op.get('extra', [])})
+                     'extra': op.get('extra', []),
+                     'local': any(q in LOCAL_PACKAGES for b in op['blocks'] for q in NEEDS.get(b, []))})
     return jobs
 
 
